@@ -44,6 +44,14 @@ pub fn to_recv_response(f: Flow<(), Prepare>) -> Option<Flow<(), RecvResponse>> 
     }
 }
 
+/// A flow in RecvResponse whose Expect: 100-continue handshake timed out (the caller gave up waiting and sent
+/// the body): the flow still expects a late 100.
+pub fn flow_recv_response_after_timeout(method: &str) -> Flow<(), RecvResponse> {
+    let req = Request::builder().method(Method::from_bytes(method.as_bytes()).unwrap()).uri("http://h.test/p").header("expect", "100-continue").body(()).unwrap();
+    let f = Flow::new(req).expect("harness: flow");
+    to_recv_response(f).expect("harness: reach RecvResponse")
+}
+
 pub fn flow_recv_response(method: &str) -> Flow<(), RecvResponse> {
     let f = Flow::new(simple_request(method, "http://h.test/p")).expect("harness: flow");
     to_recv_response(f).expect("harness: reach RecvResponse")
